@@ -236,7 +236,7 @@ def strategy(tier):
                     st.tuples(gens.comment_text(S), S['value']).map(lambda p: ['cmt', p[0], p[1]]))
 
     def kwargs_for(pool):
-        return st.lists(st.tuples(st.sampled_from(pool), arg).map(list), max_size=4, unique_by=lambda p: p[0])
+        return gens.named_values(st, pool, arg, 4)
     call_alt = st.fixed_dictionaries({
         'kind': st.just('call'), 'fn': st.sampled_from(sorted(vtypes.CALLABLES)),
         'mode': st.sampled_from(['alt-list', 'alt-odict', 'alt-dict', 'alt-iter', 'alt-zip']),
@@ -266,7 +266,8 @@ def strategy(tier):
                                 scalar, st.one_of(st.none(), scalar)).map(list), max_size=2, unique_by=lambda p: p[1])
     cls = st.fixed_dictionaries({
         'kind': st.just('class'), 'lib': st.sampled_from(['dc', 'attrs']), 'frozen': st.booleans(), 'slots': st.booleans(),
-        'fields': st.lists(field, max_size=5, unique_by=lambda f: f['name']), 'pseudo': pseudo, 'kw_only': st.sampled_from([False, False, False, True]),
+        'fields': st.lists(st.sampled_from(FIELD_POOL), max_size=5, unique=True).flatmap(
+            lambda ns: st.tuples(*[field.map(lambda f, n=n: dict(f, name=n)) for n in ns]).map(list)), 'pseudo': pseudo, 'kw_only': st.sampled_from([False, False, False, True]),
         'inherit': st.sampled_from([0, 0, 1, 2]), 'unset_attr': st.sampled_from([False, False, True]),
         'width': st.one_of(st.integers(1, 100), st.just(79)), 'indent': st.sampled_from([2, 4]), 'sort': st.booleans()})
     ctx_tree = st.recursive(st.integers(0, 9).map(lambda n: ['leaf', n]),
